@@ -27,6 +27,12 @@ RULES = [
     (r"if !", "if "), (r"\.first\(\)", ".last()"), (r"\.last\(\)", ".first()"),
     (r"= 0;", "= 1;"), (r"\bState::Finished\b", "State::Parsing"), (r"\bState::Positioned\b", "State::Parsing"),
     (r"\.\.=", ".."), (r"\bNone\b", "Some(0)"), (r"\.skip\(1\)", ".skip(0)"), (r"\* 2\b", "* 3"),
+    (r"\bqual\b", "seq"), (r"\.len\(\)", ".len() + 1"), (r"\.len\(\) > 1", ".len() > 0"), (r"\.len\(\) > 0", ".len() > 1"),
+    (r"(?<![<>=!-])<(?![<=])", ">"), (r"(?<![<>=-])>(?![>=])", "<"), (r"\bstart\b", "search_pos"), (r"\bsearch_pos\b", "start"),
+    (r"\bconsumed\b", "(consumed + 1)"), (r"\bn_records\b", "None::<usize>"), (r"\bis_new\b", "true"), (r"\bmake_room\b(?!\()", "true"),
+    (r"State::New", "State::Positioned"), (r"State::Incomplete", "State::Parsing"), (r"State::Parsing", "State::Positioned"),
+    (r"\+ 1\b", ""), (r" - 1\b", ""), (r"\bpos\.1\b", "pos.0"), (r"Some\(RecordPos::Sep\)", "Some(RecordPos::Qual)"),
+    (r"RecordPos::Head", "RecordPos::Seq"), (r"RecordPos::Qual", "RecordPos::Sep"), (r"line_offset", "0"), (r"\bparse_id\b", "true"),
 ]
 
 
@@ -117,7 +123,7 @@ def main():
         k = (j["file"], j["line"])
         if (j["file"], j["line"], j["new"]) in done or j["new"] == j["old"]:
             continue
-        if seen.get(k, 0) >= 2:
+        if seen.get(k, 0) >= int(os.environ.get('MUT_PER_LINE', '2')):
             continue
         seen[k] = seen.get(k, 0) + 1
         jobs.append(j)
